@@ -7891,7 +7891,14 @@ class SFTPServer:
             # Make sure the symlink doesn't point outside the chroot
             realpath1 = os.path.realpath(abspath1)
 
-            if realpath1 != os.path.realpath(abspath2):
+            try:
+                # Don't even look at a target which climbs above the root
+                self.reverse_map_path(posixpath.normpath(abspath2))
+                outside = False
+            except SFTPNoSuchFile:
+                outside = True
+
+            if outside or realpath1 != os.path.realpath(abspath2):
                 oldpath = os.path.relpath(
                     realpath1, start=os.path.realpath(mapped_newdir))
 
